@@ -771,6 +771,7 @@ class FileEmitter:
         ctx = self.ctx
         ik = impl_key(parent) if parent is not None and parent.kind in ("impl", "trait") else "-"
         key = (self.rel, ik, it.name)
+        self.cur_key = "%s|%s::%s" % key
         spec = ctx.specs.fns.get(key)
         if spec is None and key in getattr(ctx, "renames", {}):
             # R-renamed: the runner found that a contracted function was renamed (same impl, same signature, old name gone): the contract follows it
@@ -897,6 +898,15 @@ class FileEmitter:
         self.ctx.log("R-display", self.rel, parent.line, h, c)
         self.extra.append(c)
 
+    def hint(self, text, hid):
+        """ghost hint text with every line tagged, so that a front-end error inside a hint can be told from one in the code"""
+        return "\n".join((l + " /*@H:%s*/" % hid) if l.strip() else l for l in text.split("\n"))
+
+    def hint_dropped(self, hid):
+        if (self.cur_key, hid) in getattr(self.ctx, "drop_hints", ()):
+            self.dropped_hints.append("%s (no longer fits the changed code)" % hid); return True
+        return False
+
     def weave_body(self, b, spec, it):
         self.dropped_hints = []
         if not spec: return b
@@ -913,7 +923,9 @@ class FileEmitter:
                 start = e
             if hit is None:
                 self.dropped_hints.append("@after %s" % rx); continue
-            inner = inner[:hit] + "\n" + t + "\n" + inner[hit:]
+            hid = "after#%d" % spec.after.index((rx, t))
+            if self.hint_dropped(hid): continue
+            inner = inner[:hit] + "\n" + self.hint(t, hid) + "\n" + inner[hit:]
         for rx, t in spec.before:
             stmts = self.stmt_ends(inner)
             hit = None; start = 0
@@ -922,13 +934,15 @@ class FileEmitter:
                 start = e
             if hit is None:
                 self.dropped_hints.append("@before %s" % rx); continue
-            inner = inner[:hit] + "\n" + t + "\n" + inner[hit:]
-        if spec.entry:
-            inner = "\n" + "\n".join(spec.entry) + "\n" + inner
-        if spec.tail:
+            hid = "before#%d" % spec.before.index((rx, t))
+            if self.hint_dropped(hid): continue
+            inner = inner[:hit] + "\n" + self.hint(t, hid) + "\n" + inner[hit:]
+        if spec.entry and not self.hint_dropped("entry"):
+            inner = "\n" + self.hint("\n".join(spec.entry), "entry") + "\n" + inner
+        if spec.tail and not self.hint_dropped("tail"):
             stmts = self.stmt_ends(inner)
             pos = stmts[-1] if stmts else 0
-            inner = inner[:pos] + "\n" + "\n".join(spec.tail) + "\n" + inner[pos:]
+            inner = inner[:pos] + "\n" + self.hint("\n".join(spec.tail), "tail") + "\n" + inner[pos:]
         return "{" + inner + "}"
 
     def stmt_ends(self, inner):
@@ -973,15 +987,15 @@ class FileEmitter:
                 if c in "([": j = find_matching(out, j)
                 elif c == "{": break
                 j += 1
-            if ordn in spec.loops:
-                ins = "\n" + spec.loops[ordn] + "\n"
+            if ordn in spec.loops and not self.hint_dropped("loop#%d" % ordn):
+                ins = "\n" + self.hint(spec.loops[ordn], "loop#%d" % ordn) + "\n"
                 out = out[:j] + ins + out[j:]
                 j += len(ins)
-            if ordn in spec.loopend:
+            if ordn in spec.loopend and not self.hint_dropped("loopend#%d" % ordn):
                 k = find_matching(out, j)
-                out = out[:k] + "\n" + spec.loopend[ordn] + "\n" + out[k:]
-            if ordn in spec.loopbody:
-                out = out[:j + 1] + "\n" + spec.loopbody[ordn] + "\n" + out[j + 1:]
+                out = out[:k] + "\n" + self.hint(spec.loopend[ordn], "loopend#%d" % ordn) + "\n" + out[k:]
+            if ordn in spec.loopbody and not self.hint_dropped("loopbody#%d" % ordn):
+                out = out[:j + 1] + "\n" + self.hint(spec.loopbody[ordn], "loopbody#%d" % ordn) + "\n" + out[j + 1:]
             ordn += 1
             i = j + 1
         for k in list(spec.loops) + list(spec.loopbody) + list(spec.loopend):
@@ -1045,7 +1059,7 @@ def emit_module(ctx, out, rel, modname, include, stubset, depth=0):
     if modname is not None:
         out.add("} // mod %s\n" % modname)
 
-def build(include=None, stubset=(), spec_paths=None, shim_paths=None, out_path=None, stub_fns=(), drop_uses=(), drop_contract_fns=(), ext_consts=(), renames=None, inline_fns=(), baseline_params=None):
+def build(include=None, stubset=(), spec_paths=None, shim_paths=None, out_path=None, stub_fns=(), drop_uses=(), drop_contract_fns=(), ext_consts=(), renames=None, inline_fns=(), baseline_params=None, drop_hints=()):
     specs = Specs()
     for p in (spec_paths or []):
         parse_vspec(p, specs)
@@ -1053,7 +1067,7 @@ def build(include=None, stubset=(), spec_paths=None, shim_paths=None, out_path=N
     ctx_theorems = []
     ctx.theorems = ctx_theorems
     ctx.files = []; ctx.excluded = []
-    ctx.stub_fns = set(stub_fns); ctx.drop_uses = set(drop_uses); ctx.drop_contract_fns = set(drop_contract_fns); ctx.ext_consts = set(ext_consts); ctx.renames = dict(renames or {}); ctx.baseline_params = baseline_params or {}; ctx.inline_defs = collect_inline_defs(set(inline_fns)) if inline_fns else {}
+    ctx.stub_fns = set(stub_fns); ctx.drop_uses = set(drop_uses); ctx.drop_contract_fns = set(drop_contract_fns); ctx.ext_consts = set(ext_consts); ctx.renames = dict(renames or {}); ctx.baseline_params = baseline_params or {}; ctx.drop_hints = set(drop_hints); ctx.inline_defs = collect_inline_defs(set(inline_fns)) if inline_fns else {}
     ctx.used_companions = set(); ctx.used_implitems = set(); ctx.lost_contracts = []
     out = Out()
     out.add("#![feature(allocator_api)]\n#![feature(sized_hierarchy)]\n#![allow(unused)]\n#![allow(unused_imports, dead_code, non_camel_case_types, unused_parens, unused_braces)]\nuse vstd::prelude::*;\n")
